@@ -99,7 +99,7 @@ def x86_operand_for(draw, pat, miss):
     if k == "reg":
         if pat[1] == "*":
             return draw(st.sampled_from([["imm"], ["mem", True, False, False, 1]]))
-        others = [c for c in ["gpr", "xmm", "ymm", "zmm"] if c != pat[1]] if pat[1] != "mm" else ["gpr", "xmm"]
+        others = [c for c in ["gpr", "xmm", "ymm", "zmm", "mm"] if c != pat[1]] if pat[1] != "mm" else ["gpr", "xmm"]
         if draw(st.booleans()):
             cls = draw(st.sampled_from(others))
             return ["reg", cls, draw(st.sampled_from(X86_REGS[cls]))]
@@ -610,10 +610,125 @@ def check_sweep_entry(case):
         raise Violation("sweep-unknown:%s:%s" % (case["model"], "|".join(sorted(set(kinds)))),
                         "%r, written with exactly the operand kinds entry %s #%d of %s declares, is reported "
                         "unknown" % (text, case["name"], case["idx"], case["model"]), None, case["name"])
+    extra_cl = []
+    if got is not f:
+        # another entry answered: it must itself declare the kinds of these operands (R-match over descriptors)
+        verdict = rmatch_objects(isa, got.operands, line.operands)
+        if verdict is False:
+            raise Violation("sweep-wrong-entry:%s:%s" % (case["model"], isa),
+                            "%r (written from entry %s #%d of %s) is answered by another entry of the mnemonic whose "
+                            "operand pattern does not accept these operand kinds: %s" % (
+                                text, case["name"], case["idx"], case["model"], [str(o)[:60] for o in got.operands]),
+                            [str(o)[:80] for o in got.operands], text)
+        extra_cl.append("sweep:other-entry-" + ("accepts" if verdict else "not-classified"))
     return {"nontrivial": len(forms) >= 2 and got is not forms[0], "classes": [
-        "sweep", "sweep:self" if got is f else "sweep:earlier-or-other-entry"],
+        "sweep", "sweep:self" if got is f else "sweep:earlier-or-other-entry"] + extra_cl,
         "key": [case["model"], case["name"], case["idx"], v],
         "sample": {"model": case["model"], "entry": case["name"], "instruction": text}}
+
+
+def x86_regclass(name):
+    n = name.lower()
+    for c in ("xmm", "ymm", "zmm"):
+        if n.startswith(c):
+            return c
+    if n.startswith("mm") and n[2:].isdigit():
+        return "mm"
+    if n.startswith("k") and n[1:].isdigit():
+        return "k"
+    return "gpr"
+
+
+def rmatch_objects(isa, pats, ops):
+    """R-match of a shipped entry's operand objects against parsed operands, via the abstract descriptors.
+    True / False / None (a pattern or operand outside the descriptor language: not classified)."""
+    from osaca.parser.condition import ConditionOperand
+    from osaca.parser.identifier import IdentifierOperand
+    from osaca.parser.immediate import ImmediateOperand
+    from osaca.parser.memory import MemoryOperand
+    from osaca.parser.register import RegisterOperand
+
+    if len(pats) != len(ops):
+        return False
+    res = True
+    for p, o in zip(pats, ops):
+        if isa == "x86":
+            if isinstance(o, RegisterOperand):
+                od = ["reg", x86_regclass(o.name), o.name]
+            elif isinstance(o, ImmediateOperand):
+                od = ["imm"]
+            elif isinstance(o, IdentifierOperand):
+                od = ["id"]
+            elif isinstance(o, MemoryOperand):
+                od = ["mem", o.base is not None, o.offset is not None, o.index is not None, o.scale]
+            else:
+                return None
+            if isinstance(p, RegisterOperand):
+                if p.name is None:
+                    return None
+                if p.name in ("*", "gpr", "xmm", "ymm", "zmm", "mm", "k"):
+                    pd = ["reg", p.name]
+                else:
+                    pd = ["regname", p.name]
+            elif isinstance(p, ImmediateOperand):
+                pd = ["imm"]
+            elif isinstance(p, IdentifierOperand):
+                pd = ["id"]
+            elif isinstance(p, MemoryOperand):
+                def comp(x):
+                    if isinstance(x, RegisterOperand):
+                        return x.name
+                    return x
+                if comp(p.offset) not in ("*", "imd", None) or comp(p.base) not in ("*", "gpr", None) or \
+                        comp(p.index) not in ("*", "gpr", None):
+                    return None
+                pd = ["mem", comp(p.base), comp(p.offset), comp(p.index), p.scale]
+            else:
+                return None
+            m = x86_matches(pd, od)
+        else:
+            if isinstance(o, RegisterOperand):
+                od = ["reg", o.prefix, o.shape]
+            elif isinstance(o, ImmediateOperand):
+                if o.imd_type not in ("int", "double", "float"):
+                    return None
+                od = ["imm", o.imd_type]
+            elif isinstance(o, IdentifierOperand):
+                od = ["id"]
+            elif isinstance(o, ConditionOperand):
+                od = ["cc", o.ccode]
+            elif isinstance(o, MemoryOperand):
+                od = ["mem", o.offset is not None, o.index.prefix if o.index is not None else None, o.scale,
+                      bool(o.pre_indexed), bool(o.post_indexed)]
+            else:
+                return None
+            if isinstance(p, RegisterOperand):
+                pd = ["reg", p.prefix, p.shape]
+                if p.prefix is None:
+                    return None
+            elif isinstance(p, ImmediateOperand):
+                pd = ["imm", p.imd_type]
+            elif isinstance(p, IdentifierOperand):
+                pd = ["id"]
+            elif isinstance(p, ConditionOperand):
+                pd = ["cc", p.ccode]
+            elif isinstance(p, MemoryOperand):
+                off, idx = p.offset, p.index
+                if isinstance(idx, RegisterOperand):
+                    idx = idx.prefix
+                if off not in ("*", "imd", None) or idx not in ("*", "x", "w", "z", None) or isinstance(p.post_indexed, dict):
+                    return None
+                pd = ["mem", off, idx, p.scale, p.pre_indexed, p.post_indexed]
+                if idx in ("w", "z") or od[2] in ("w", "z"):
+                    return None
+            else:
+                return None
+            m = a64_matches(pd, od)
+        if m is None:
+            res = None if res is not False else False
+        elif m is False:
+            return False
+    return res
 
 
 def plan(tier, seed):
